@@ -177,6 +177,8 @@ type run struct {
 	traceCalls   bool
 	daemons      []string
 	parseApps    []parseApp
+	known        map[string]bool
+	tokens       map[string]bool
 	raceTimers   bool
 	invariants   []invariantRec
 	inInvariant  bool
@@ -229,6 +231,21 @@ func (r *run) branch(c *sym) bool {
 	if c.t == "false" {
 		return false
 	}
+	// an atom already decided on this path needs no decision (and no solver call)
+	if v, ok := r.known[c.t]; ok {
+		return v
+	}
+	if strings.HasPrefix(c.t, "(not ") {
+		if v, ok := r.known[c.t[5:len(c.t)-1]]; ok {
+			return !v
+		}
+	}
+	res := r.branch0(c)
+	r.known[c.t] = res
+	return res
+}
+
+func (r *run) branch0(c *sym) bool {
 	pos := len(r.trace)
 	if pos >= r.e.opts.maxDecisions {
 		r.inconclusive("decision depth bound exceeded")
@@ -246,10 +263,10 @@ func (r *run) branch(c *sym) bool {
 	}
 	rt := r.solver.CheckWith(c.t)
 	rf := Unknown
-	if !r.solver.dead {
+	if !r.solver.dead || r.solver.alt != nil {
 		rf = r.solver.CheckWith(smtNot(c.t))
 	}
-	if r.solver.dead {
+	if r.solver.dead && r.solver.alt == nil {
 		r.inconclusive("solver hard timeout on branch condition " + truncate(c.t, 200))
 		panic(pathEnd{"solver dead"})
 	}
